@@ -445,13 +445,13 @@ Qed.
 Lemma w_marker_wf : wf_field w_marker.
 Proof.
   destruct unit_mesh_wf_parts as [A B]. unfold wf_field. simpl.
-  repeat split; auto; try lia; try (constructor; [lia | constructor]); try apply A.
+  repeat split; auto; try lia; try (constructor; [lia | constructor]); try apply A; try reflexivity.
 Qed.
 
 Lemma w_bigint_wf : wf_field w_bigint.
 Proof.
   destruct unit_mesh_wf_parts as [A B]. unfold wf_field. simpl.
-  repeat split; auto; try lia; try (constructor; [lia | constructor]); try apply A.
+  repeat split; auto; try lia; try (constructor; [lia | constructor]); try apply A; try reflexivity.
 Qed.
 
 Lemma marker_refuted :
@@ -507,3 +507,8 @@ Proof.
     repeat split; auto; try discriminate;
     repeat (constructor; try reflexivity; auto).
 Qed.
+
+Lemma w_rich_nonvacuous :
+  wf_field w_rich /\ f_unit w_rich <> Some none_marker /\ f_ck w_rich = KInt /\
+  f_subk w_rich = [KInt; KFloat] /\ f_dk w_rich = DComplex.
+Proof. split; [apply w_rich_wf|]. split; [discriminate|]. repeat split. Qed.
